@@ -68,7 +68,6 @@ impl Engine {
 }
 impl<'a> HasBytes for &'a [u8] { open spec fn bytes_view(&self) -> Seq<u8> { (**self)@ } }
 impl HasBytes for String { open spec fn bytes_view(&self) -> Seq<u8> { utf8(self@) } }
-impl HasBytes for Bytes { open spec fn bytes_view(&self) -> Seq<u8> { self@ } }
 // A-bytes-28: Bytes: From<String> is the UTF-8 bytes of the string
 pub uninterp spec fn bytes_of_string(s: String) -> Bytes;
 pub broadcast axiom fn axiom_bytes_of_string(s: String) ensures (#[trigger] bytes_of_string(s))@ == utf8(s@);
